@@ -629,6 +629,9 @@ type c18Refresh struct {
 	// Idle: the host is not dialled at all between the refresh before the change and a moment several
 	// refresh intervals after it (a target that is hit rarely)
 	Idle bool `json:",omitempty"`
+	// Gone: the name stops resolving (NXDOMAIN) while it keeps being dialled; after the refreshes that saw it
+	// fail, connection attempts may no longer go to the addresses it once had
+	Gone bool `json:",omitempty"`
 }
 
 func c18RefreshOnce(c c18Refresh, attempt int) (stale bool, detail string, inconclusive bool) {
@@ -685,6 +688,34 @@ func c18RefreshOnce(c c18Refresh, attempt int) (stale bool, detail string, incon
 		return false, fmt.Sprintf("first dial went to %v, resolved %v", d, c.Old), true
 	}
 	dial()
+	if c.Gone {
+		answered := func() int {
+			c18DNS.mu.Lock()
+			defer c18DNS.mu.Unlock()
+			return c18DNS.answered[fq]
+		}
+		c18DNS.mu.Lock()
+		delete(c18DNS.hosts, fq)
+		c18DNS.mu.Unlock()
+		a0 := answered()
+		deadline := time.Now().Add(time.Duration(6*c.TTLms)*time.Millisecond + 5*time.Second)
+		// keep dialling (so that the entry stays in use) until two refreshes have asked and got the failure
+		for answered() < a0+4 {
+			if time.Now().After(deadline) {
+				return false, "the refresher did not look the name up again", true
+			}
+			dial()
+			time.Sleep(time.Duration(c.TTLms/4+1) * time.Millisecond)
+		}
+		time.Sleep(time.Duration(2*c.TTLms) * time.Millisecond)
+		dial()
+		time.Sleep(time.Duration(2*c.TTLms) * time.Millisecond)
+		d := dial()
+		if len(d) == 0 {
+			return false, "", false
+		}
+		return true, fmt.Sprintf("attempt %d: refresh every %dms; the name stopped resolving (NXDOMAIN, seen by at least two refreshes) while being dialled all the time; a later dial still went to %v (it resolved to %v once)", attempt, c.TTLms, d, c.Old), false
+	}
 	if c.Idle {
 		answered := func() int {
 			c18DNS.mu.Lock()
@@ -769,17 +800,20 @@ func runC18Refresh(c c18Refresh) error {
 
 func TestC18Refresh(t *testing.T) {
 	vh.ShrinkTime("1s")
-	vh.Check(t, 1, 6, func(t *rapid.T) {
+	vh.Check(t, 2, 6, func(t *rapid.T) {
 		c := c18Refresh{TTLms: rapid.SampledFrom([]int{1200, 1500}).Draw(t, "ttl")}
-		if c.Idle = rapid.Bool().Draw(t, "idle"); c.Idle {
-			c.TTLms = rapid.SampledFrom([]int{60, 100}).Draw(t, "idlettl")
+		switch rapid.IntRange(0, 2).Draw(t, "variant") {
+		case 1:
+			c.Idle, c.TTLms = true, rapid.SampledFrom([]int{60, 100}).Draw(t, "idlettl")
+		case 2:
+			c.Gone, c.TTLms = true, rapid.SampledFrom([]int{60, 100}).Draw(t, "gonettl")
 		}
 		n := rapid.IntRange(1, 3).Draw(t, "n")
 		for i := 0; i < n; i++ {
 			c.Old = append(c.Old, fmt.Sprintf("10.9.0.%d", i+1))
 			c.New = append(c.New, fmt.Sprintf("10.9.1.%d", i+1))
 		}
-		vh.Case("C18.refresh", fmt.Sprintf("%+v", c), true, "address-set-change", fmt.Sprintf("host-idle-after-the-change:%v", c.Idle))
+		vh.Case("C18.refresh", fmt.Sprintf("%+v", c), true, "address-set-change", fmt.Sprintf("host-idle-after-the-change:%v", c.Idle), fmt.Sprintf("name-stops-resolving:%v", c.Gone))
 		vh.Sample("C18.refresh", true, c)
 		if err := runC18Refresh(c); err != nil {
 			vh.Fail(t, "C18", "C18.refresh", c, err)
@@ -791,3 +825,76 @@ func init() {
 	vh.RegisterReplay("C18.dial", vh.Replayer(runC18))
 	vh.RegisterReplay("C18.refresh", vh.Replayer(runC18Refresh))
 }
+
+// ---------------------------------------------------------------- one option value, several attackers
+
+// An option value is a description, not a shared object: two attackers built from the same
+// ConnectTo(...) value each rotate over the replacement addresses by themselves.
+type c18Shared struct {
+	Replacements int
+	Attackers    int
+	Dials        int // per attacker, interleaved: attacker 0, 1, ..., 0, 1, ...
+}
+
+func runC18Shared(c c18Shared) error {
+	var dsts []string
+	for i := 0; i < c.Replacements; i++ {
+		dsts = append(dsts, fmt.Sprintf("192.168.7.%d:%d", i+1, 9000+i))
+	}
+	opt := vegeta.ConnectTo(map[string][]string{"mapped.c18.test:80": dsts})
+	recs := make([]*c18Recorder, c.Attackers)
+	dials := make([]func(ctx context.Context, network, addr string) (net.Conn, error), c.Attackers)
+	for i := range recs {
+		recs[i] = &c18Recorder{}
+		tr := &http.Transport{DialContext: recs[i].DialContext}
+		atk := vegeta.NewAttacker(vegeta.Client(&http.Client{Transport: tr}), opt)
+		defer atk.Stop()
+		dials[i] = tr.DialContext
+	}
+	for k := 0; k < c.Dials; k++ {
+		for i := range dials {
+			_, _ = dials[i](context.WithValue(context.Background(), c18CallKey{}, k+1), "tcp", "mapped.c18.test:80")
+		}
+	}
+	for i, r := range recs {
+		r.mu.Lock()
+		var seq []string
+		for _, d := range r.dials {
+			seq = append(seq, d.Addr)
+		}
+		r.mu.Unlock()
+		if len(seq) != c.Dials {
+			return fmt.Errorf("attacker %d of %d built from one ConnectTo option value: %d dials recorded for %d calls", i, c.Attackers, len(seq), c.Dials)
+		}
+		idx := func(a string) int {
+			for j, d := range dsts {
+				if d == a {
+					return j
+				}
+			}
+			return -1
+		}
+		for k := range seq {
+			if idx(seq[k]) < 0 {
+				return fmt.Errorf("attacker %d dialled %q, not a replacement of the mapped address", i, seq[k])
+			}
+			if k > 0 && idx(seq[k]) != (idx(seq[k-1])+1)%len(dsts) {
+				return fmt.Errorf("%d attackers built from one ConnectTo option value (%d replacements), dialling in turns: attacker %d used the replacements %v - not a rotation over %v", c.Attackers, len(dsts), i, seq, dsts)
+			}
+		}
+	}
+	return nil
+}
+
+func TestC18SharedOption(t *testing.T) {
+	vh.Check(t, 40, 1000, func(t *rapid.T) {
+		c := c18Shared{Replacements: rapid.IntRange(1, 5).Draw(t, "k"), Attackers: rapid.IntRange(1, 4).Draw(t, "attackers"), Dials: rapid.IntRange(1, 20).Draw(t, "dials")}
+		vh.Case("C18.sharedoption", fmt.Sprintf("%+v", c), c.Attackers >= 2 && c.Replacements >= 2, fmt.Sprintf("attackers=%d", c.Attackers))
+		vh.Sample("C18.sharedoption", c.Attackers >= 2, c)
+		if err := runC18Shared(c); err != nil {
+			vh.Fail(t, "C18", "C18.sharedoption", c, err)
+		}
+	})
+}
+
+func init() { vh.RegisterReplay("C18.sharedoption", vh.Replayer(runC18Shared)) }
